@@ -16,22 +16,21 @@ from ..harness import Harness, STYPES
 FILE = "lib/core/covfie/core/backend/transformer/backup.hpp"
 
 
-def make(N, M, s, t="float"):
+def make(N, M, s, t="float", route="direct"):
     ct = STYPES[s][0]
     args = ([(ct, ('c', k)) for k in range(N)] + [(ct, ('lo', k)) for k in range(N)] + [(ct, ('hi', k)) for k in range(N)] +
             [(t, ('def', q)) for q in range(M)] + [("std::uint64_t", 'tag')])
     a = lambda role: "a%d" % [r for _, r in args].index(role)
     body = """
-  using P = verif::vprobe<%s, %d, %s, %d>;
-  using B = backup<P>;
-  B::owning_data_t o(B::configuration_t{{%s}, {%s}, {%s}}, P::owning_data_t(P::configuration_t{%s}));
+  %s
   B::non_owning_data_t v(o);
   auto r = v.at({%s});
   %s
-""" % (ct, N, t, M, ", ".join(a(('lo', k)) for k in range(N)), ", ".join(a(('hi', k)) for k in range(N)),
-       ", ".join(a(('def', q)) for q in range(M)), a('tag'), ", ".join(a(('c', k)) for k in range(N)),
+""" % (harness.construct(route, "backup", "%s, %d, %s, %d" % (ct, N, t, M), "B::configuration_t{{%s}, {%s}, {%s}}" % (
+           ", ".join(a(('lo', k)) for k in range(N)), ", ".join(a(('hi', k)) for k in range(N)), ", ".join(a(('def', q)) for q in range(M))), a('tag')),
+       ", ".join(a(('c', k)) for k in range(N)),
        " ".join("out[%d] = r[%d];" % (q, q) for q in range(M)))
-    return Harness("backup_%s_%d_%s_%d" % (s, N, t, M), args, body, out=(t, M), meta={"N": N, "M": M, "S": s, "T": t})
+    return Harness("backup_%s_%d_%s_%d_%s" % (s, N, t, M, route), args, body, out=(t, M), meta={"N": N, "M": M, "S": s, "T": t, "route": route})
 
 
 def cmp_nodes(t):
@@ -54,6 +53,10 @@ def harnesses(tier):
     else:
         combos = [(N, M, s) for N in (1, 2, 3, 4) for M in (1, 2, 3, 4) for s in ("size_t", "unsigned", "int", "float", "double")]
     hs = [make(N, M, s, "double" if (N + M) % 2 else "float") for (N, M, s) in combos]
+    # the same contract along every other construction route
+    for i, route in enumerate(harness.ROUTES[2:]):  # clamp and backup have no converting constructor
+        for N in ((1, 2, 3) if tier != "quick" else (1 + i % 3,)):
+            hs.append(make(N, (N % 3) + 1, ("int", "float", "size_t")[(i + N) % 3], "float", route))
     return hs
 
 
@@ -64,7 +67,7 @@ def run(rep, tier):
     for h in hs:
         N, M, S, T = h.meta["N"], h.meta["M"], h.meta["S"], h.meta["T"]
         tsz = 4 if T == "float" else 8
-        inst = "backup<%s,%d,%s,%d>" % (S, N, T, M)
+        inst = "backup<%s,%d,%s,%d>" % (S, N, T, M) + (" via " + h.meta["route"] if h.meta.get("route", "direct") != "direct" else "")
         if h.error:
             loc, msg = harness.first_error(h)
             rep.fail("C11.compile", inst, loc, "does not compile: " + msg)
